@@ -71,16 +71,12 @@ func (s *scanSpec) rebase(newBase int64) {
 	if d == 0 {
 		return
 	}
-	const window = 20 * 365 * 24 * 3600
 	fix := func(n *v1.Node) {
 		if !n.CreationTimestamp.IsZero() {
 			n.CreationTimestamp = metav1.NewTime(n.CreationTimestamp.Add(time.Duration(d) * time.Second))
 		}
 		for i := range n.Spec.Taints {
-			if v, err := strconv.ParseInt(n.Spec.Taints[i].Value, 10, 64); err == nil && v > s.BaseSec-window && v < s.BaseSec+window &&
-				strconv.FormatInt(v, 10) == n.Spec.Taints[i].Value {
-				n.Spec.Taints[i].Value = strconv.FormatInt(v+d, 10)
-			}
+			n.Spec.Taints[i].Value = shiftTaintValue(n.Spec.Taints[i].Value, d, s.BaseSec)
 		}
 	}
 	for _, n := range s.Nodes {
@@ -105,6 +101,7 @@ type K8sCall struct {
 	Name    string
 	OK      bool
 	Payload *v1.Node
+	Added   bool // update: the payload carries more taints than the stored copy (a taint was appended)
 }
 
 type Journal struct {
@@ -121,12 +118,16 @@ func (j *Journal) add(e JEntry) {
 // ---------- listers ----------
 
 type snapPodLister struct {
-	pods []*v1.Pod
-	j    *Journal
+	pods   []*v1.Pod
+	j      *Journal
+	onList func() // called at the start of every node group's scan
 }
 
 func (l *snapPodLister) List(sel labels.Selector) ([]*v1.Pod, error) {
 	l.j.add(JEntry{Marker: true})
+	if l.onList != nil {
+		l.onList()
+	}
 	return append([]*v1.Pod(nil), l.pods...), nil
 }
 func (l *snapPodLister) Pods(ns string) v1lister.PodNamespaceLister { return nil }
@@ -179,9 +180,10 @@ func (a *apiSim) react(action k8stesting.Action) (bool, runtime.Object, error) {
 		act := action.(k8stesting.UpdateAction)
 		obj := act.GetObject().(*v1.Node)
 		name := obj.Name
-		_, ok := a.store[name]
+		old, ok := a.store[name]
 		fail := a.update[name] || !ok
-		a.j.add(JEntry{K8s: &K8sCall{Verb: "update", Name: name, OK: !fail, Payload: obj.DeepCopy()}})
+		added := !ok || len(obj.Spec.Taints) > len(old.Spec.Taints)
+		a.j.add(JEntry{K8s: &K8sCall{Verb: "update", Name: name, OK: !fail, Payload: obj.DeepCopy(), Added: added}})
 		if fail {
 			return true, nil, errInjected
 		}
@@ -261,13 +263,40 @@ func newWorld(s *scanSpec) (*world, error) {
 	w.api = newAPISim(apiNodes, w.j)
 	w.sim = NewAwsSim(s.Cloud)
 	w.sim.journalSink = w.j
+	w.pods = &snapPodLister{pods: s.Pods, j: w.j}
+	w.nodes = &snapNodeLister{nodes: s.Nodes}
+	// the simulated AWS attributes calls about instances it does not know to the group being scanned
+	w.pods.onList = func() {
+		w.sim.mu.Lock()
+		w.sim.curIdx++
+		w.sim.mu.Unlock()
+	}
+	w.sim.curGroup = func() string {
+		i := w.sim.curIdx - 1
+		if i >= 0 && i < len(w.spec.Groups) {
+			return w.spec.Groups[i].Opts.CloudProviderGroupName
+		}
+		return ""
+	}
+	if err := w.build(); err != nil {
+		return nil, err
+	}
+	return w, nil
+}
+
+// build constructs a fresh cloud provider and a fresh Controller over the world's services (also: a restart).
+func (w *world) build() error {
+	s := w.spec
 	configs := []cloudprovider.NodeGroupConfig{}
 	opts := []controller.NodeGroupOptions{}
+	w.sim.mu.Lock()
+	cloud := w.sim.snapshotGroups()
+	w.sim.mu.Unlock()
 	for i := range s.Groups {
 		g := &s.Groups[i]
 		o := g.Aws
 		w.sim.oracle[g.Opts.CloudProviderGroupName] = &o
-		for _, a := range s.Cloud {
+		for _, a := range cloud {
 			if a.Name == g.Opts.CloudProviderGroupName {
 				c := groupConfig(a, o)
 				c.Name = g.Opts.Name
@@ -278,21 +307,19 @@ func newWorld(s *scanSpec) (*world, error) {
 	}
 	prov, err := awsprov.VerifNewCloudProvider(simAutoscaling{s: w.sim}, simEC2{s: w.sim}, configs...)
 	if err != nil {
-		return nil, err
+		return err
 	}
 	w.prov = prov
 	cs := fake.NewSimpleClientset()
 	cs.PrependReactor("*", "nodes", w.api.react)
-	w.pods = &snapPodLister{pods: s.Pods, j: w.j}
-	w.nodes = &snapNodeLister{nodes: s.Nodes}
 	copts := controller.Opts{K8SClient: cs, NodeGroups: opts, DryMode: s.GlobalDry, ScanInterval: time.Minute,
 		CloudProviderBuilder: simBuilder{build: func() (cloudprovider.CloudProvider, error) { return prov, nil }}}
 	ctl, err := controller.VerifNewController(copts, prov, w.pods, w.nodes)
 	if err != nil {
-		return nil, err
+		return err
 	}
 	w.ctl = ctl
-	return w, nil
+	return nil
 }
 
 // setOracles installs the per-group API failure oracles (union over groups: node names are unique per case).
@@ -362,6 +389,7 @@ func (w *world) scanOnce(setState bool) scanObs {
 	w.sim.ResetCounters()
 	w.sim.record = true
 	w.sim.describeAsRefresh = 1
+	w.sim.curIdx = 0
 	w.sim.mu.Unlock()
 	obs.Start = time.Now()
 	func() {
@@ -419,15 +447,38 @@ func (w *world) scanOnce(setState bool) scanObs {
 	return obs
 }
 
+// slowLimit: how much real time a scan may take before its real-clock tolerances (taint stamp within 3 s, margins of
+// 3 s around lock / max_node_age / lastScaleOut comparisons) are in doubt: 1.5 s, plus 2.5 s per fleet-mode group.
+func slowLimit(s *scanSpec) time.Duration {
+	d := 1500 * time.Millisecond
+	for _, a := range s.Cloud {
+		if a.Template != "" {
+			d += 2500 * time.Millisecond
+		}
+	}
+	return d
+}
+
+var slowRetries int
+
 func runScanSpec(s *scanSpec) (scanObs, error) {
 	scanMu.Lock()
 	defer scanMu.Unlock()
-	s.rebase(time.Now().Unix())
-	w, err := newWorld(s)
-	if err != nil {
-		return scanObs{}, err
+	for attempt := 0; ; attempt++ {
+		t0 := time.Now()
+		s.rebase(t0.Unix())
+		w, err := newWorld(s)
+		if err != nil {
+			return scanObs{}, err
+		}
+		obs := w.scanOnce(true)
+		// a stalled process (machine under load) breaks the harness's own timing assumptions: run the case again
+		if time.Since(t0) > slowLimit(s) && attempt < 4 {
+			slowRetries++
+			continue
+		}
+		return obs, nil
 	}
-	return w.scanOnce(true), nil
 }
 
 // ---------- emission ----------
@@ -497,7 +548,9 @@ func (in *Interner) ccall(e JEntry, nowSec int64, preTaintCount map[string]int) 
 		return fmt.Sprintf("(CK (KGet %s %s))", cz(in.ID(k.Name)), cbool(k.OK))
 	case "update":
 		p := k.Payload.DeepCopy()
-		canonTaintStamp(p, nowSec)
+		if k.Added { // only a freshly appended stamp reads the real clock
+			canonTaintStamp(p, nowSec)
+		}
 		return fmt.Sprintf("(CK (KUpdate %s %s %s))", cz(in.ID(k.Name)), in.cnode(p), cbool(k.OK))
 	case "delete":
 		return fmt.Sprintf("(CK (KDelete %s %s))", cz(in.ID(k.Name)), cbool(k.OK))
@@ -569,6 +622,12 @@ func emitScanCase(s *scanSpec, obs *scanObs) (string, string, bool, string) {
 	keyParts := ""
 	nontrivial := false
 	ncalls := 0
+	lastReached := -1
+	for gi, g := range obs.Groups {
+		if g.Reached {
+			lastReached = gi
+		}
+	}
 	for gi, g := range obs.Groups {
 		if !g.Reached {
 			continue
@@ -593,6 +652,9 @@ func emitScanCase(s *scanSpec, obs *scanObs) (string, string, bool, string) {
 		}
 		lockT := canonTime(g.State.LockTime, obs.PreLock[g.Name], preLockM, obs)
 		lastOut := canonTime(g.State.LastScaleOut, obs.PreOut[g.Name], preOutM, obs)
+		// (Until main's Scan.v stopped assigning lastScaleOut on OutExit the harness reported the scan instant here for a group
+		// that ended in log.Fatalf; the observed value is emitted as is now.  corpus/exit_last_scale_out.json is the regression input.)
+		_ = lastReached
 		st := in.cgstate(g.State.Locked, lockT, g.State.Requested, g.State.ScaleDelta, lastOut, g.State.CPUCapMilli, g.State.MemCapBytes, g.State.TaintTracker, g.State.ForceTaintTracker)
 		og = append(og, fmt.Sprintf("(Build_obs_group %s %s %s %s %s)", cz(in.ID(g.Name)), clist(cs), st, cz(g.Desired), cz(int64(g.Tries))))
 		keyParts += fmt.Sprintf("|%d|%v|%d", g.State.ScaleDelta, g.State.Locked, g.Desired)
